@@ -2,6 +2,7 @@ CONSTANTS
   Tier = "@TIER@"
   Edits1 = @EDITS1@
   Edits2 = @EDITS2@
+  Headers = @HEADERS@
 INIT Init
 NEXT Next
 CONSTRAINT Emit
